@@ -3,6 +3,7 @@ package gobl
 import (
 	"encoding/json"
 
+	"github.com/invopop/gobl/internal"
 	"github.com/invopop/gobl/schema"
 )
 
@@ -17,6 +18,10 @@ func Parse(data []byte) (interface{}, error) {
 	}
 	if id == schema.UnknownID {
 		return nil, ErrUnknownSchema
+	}
+
+	if p, found := internal.NullArrayElement(data); found {
+		return nil, ErrUnmarshal.WithReason("null array element at %s", p)
 	}
 
 	obj := id.Interface()
